@@ -19,14 +19,14 @@ PROPS = {
     },
     "C11": {
         "thm_modules": ["Rq.Thm.C11"],
-        "engines": [("kernels", "release"), ("kernels", "debug"), ("workload", "release"), ("workload", "debug")],
+        "engines": [("kernels", "release"), ("kernels", "debug"), ("workload", "release"), ("workload", "debug"), ("slab", "release")],
         "nostd_workload": True,
         "modelled": ["CPU instruction semantics (pshufb per 128-bit lane, srli_epi64, and/xor, masked move, bit extraction) modelled byte-wise from the vendor description", "alignment does not exist in the model (unaligned loads/stores only); swept by the correspondence run", "NEON kernels are not compiled for this host"],
         "assumptions": ["runtime half (the silicon agrees with the modelled intrinsics; every alignment) is observed by the correspondence run on every path the host offers, not proved: labelled partial in DESIGN.md"],
     },
     "C12": {
         "thm_modules": ["Rq.Thm.C12", "Rq.Thm.C12b"],
-        "engines": [("kernels", "release"), ("kernels", "debug"), ("slab", "release"), ("slab", "debug"), ("decblk", "release")],
+        "engines": [("kernels", "release"), ("kernels", "debug"), ("slab", "release"), ("slab", "debug"), ("decblk", "release"), ("fence", "release"), ("fence", "debug")],
         "modelled": ["accesses are (buffer, offset, width) triples produced by the same loop skeletons as the kernels; that the Rust pointer expressions are these offsets is validated by guard pages, not proved"],
         "assumptions": ["every kernel operand of the correspondence run is placed flush against PROT_NONE guard pages (end-flush / start-flush / 64 offsets); a fault is reported with the exact case"],
     },
@@ -45,7 +45,7 @@ PROPS = {
     },
     "C17": {
         "thm_modules": ["Rq.Thm.C17"],
-        "engines": [("cache", "release"), ("cache", "debug")],
+        "engines": [("cache", "release"), ("cache", "debug"), ("repair", "release")],
         "modelled": ["Mutex = mutual exclusion: each of the two critical sections is one atomic step; lock poisoning ignored", "HashMap as an association list with distinct keys, VecDeque as a list, Arc<Plan> as the plan value", "plan generation as a pure function gen : K -> Plan"],
         "assumptions": ["real threads are parked at the yield hook between the critical sections and released one step at a time along seeded schedules (all 20 interleavings of two racing requests, eviction races at capacity-1/capacity/capacity+1, lost race followed by > capacity sizes, random schedules), plus a free-running 8-thread soak"],
     },
@@ -96,7 +96,7 @@ PROPS.update({
     },
     "C08": {
         "thm_modules": ["Rq.Thm.C08", "Rq.Thm.C02"],
-        "engines": [("decblk", "release"), ("decobj", "release"), ("decobj", "debug")],
+        "engines": [("decblk", "release"), ("decobj", "release"), ("decobj", "debug"), ("decblk", "debug")],
         "modelled": [SOLVER, "#[derive(Clone)] copies the whole state (the model is a value; cloned decoders are compared by the correspondence run)"],
         "assumptions": ["packet sets are sets of genuine packets of one object"],
     },
@@ -108,13 +108,13 @@ PROPS.update({
     },
     "C06": {
         "thm_modules": ["Rq.Thm.C06", "Rq.Thm.C06b", "Rq.Thm.C06c", "Rq.Thm.Tables"],
-        "engines": [("inter", "release"), ("plan", "release"), ("plan", "debug"), ("tables", "release"), ("solver", "release"), ("object", "release")],
+        "engines": [("inter", "release"), ("plan", "release"), ("plan", "debug"), ("tables", "release"), ("solver", "release"), ("object", "release"), ("linear", "release")],
         "modelled": [SOLVER],
         "assumptions": [INVERT, "plan certificates (identity-block replay) are evaluated by the compiled model driver for K <= 130 (quick) / 400 (thorough): compiled Lean evaluation, not a kernel proof; all 477 K' are covered by checking Rust's intermediate symbols against every row of the Spec system"],
     },
     "C03": {
         "thm_modules": ["Rq.Thm.C02"],
-        "engines": [("overhead", "release")],
+        "engines": [("overhead", "release"), ("solver", "release")],
         "level": "other",
         "explanation": "What is proved: the decoder fails exactly when the RFC 6330 constraint matrix of the received set is rank deficient (C02.attempt_iff, few_rows_not_determined), so its failure probability over random (K+h)-subsets equals that of the RFC code. What is not provable: the numerical bounds (below 1 percent, 0.01 percent, 0.001 percent), an empirical property of the code design; supported by a seeded Monte-Carlo run in which every failure is certified singular by the oracle, with an exact Clopper-Pearson lower bound at confidence 1-1e-9 as the only alarm.",
         "modelled": [SOLVER],
@@ -130,7 +130,7 @@ PROPS.update({
     },
     "C07": {
         "thm_modules": ["Rq.Thm.C07"],
-        "engines": [("configs", "release"), ("configs", "debug"), ("kernels", "release"), ("solver", "release"), ("solver", "debug"), ("matrices", "release")],
+        "engines": [("configs", "release"), ("configs", "debug"), ("kernels", "release"), ("solver", "release"), ("solver", "debug"), ("matrices", "release"), ("repair", "release")],
         "nostd_workload": True,
         "modelled": [SOLVER, "optimised vs debug-assertion code generation, std vs no_std, and the release-only errata-11 column skipping are not modelled: covered by the correspondence run only (partial)"],
         "assumptions": ["four builds (std/no_std x checked/unchecked) run one public-API workload and are compared textually; inside the std harness: dispatch ceiling x sparse threshold x plan mode grid against the canonical result, which is tied to the model"],
